@@ -160,6 +160,7 @@ fam(ScenarioFamily('odd_timeout', ('C01', 'C03', 'C09', 'C11'), gen.odd_timeout_
 fam(ScenarioFamily('rehydrated', ('C08',), gen.rehydrated_scenario, 250, 2500))
 fam(EnumFamily('retry_handler_timeout_enum', ('C10',), gen.retry_handler_base, gen.retry_handler_derive, 8, 100, 40, 150))
 fam(ScenarioFamily('strict_warnings', ('C11', 'C01'), gen.strict_warnings_scenario, 250, 2500))
+fam(EnumFamily('cyclic_timeout_enum', ('C10',), gen.cyclic_timeout_base, gen.cyclic_timeout_derive, 4, 30, 40, 150))
 fam(ScenarioFamily('manual_step', ('C06',), gen.manual_step_scenario, 150, 1500))
 fam(EnumFamily('double_cancel_enum', ('C06', 'C10', 'C02'), gen.double_cancel_base, gen.double_cancel_derive, 8, 120, 40, 150))
 fam(EnumFamily('waitfor_enum', ('C15',), gen.waitfor_base, gen.waitfor_derive, 16, 200, 40, 120))
@@ -427,6 +428,7 @@ CHECKS['C06'].families.append('manual_step')
 CHECKS['C08'].families.append('fwdback_timeout_enum')
 CHECKS['C02'].families.append('capacity')  # bursts that fill the bounded queue: order among accepted events, rejected ones aside
 CHECKS['C07'].families.append('late_fwd')
+CHECKS['C10'].families.append('cyclic_timeout_enum')  # one narrow circular child graph (the root handed on by its own child) under the enumerated timeout
 CHECKS['C11'].families.append('strict_warnings')  # programs run with UserWarning promoted to an error
 CHECKS['C08'].families.append('stop_enum')  # a bus stopped while another bus's handler is processing one of its events inline
 CHECKS['C15'].families.append('spawn')  # wait_until_idle() called by a task that a handler created (a flush task outliving its handler)
